@@ -1,11 +1,11 @@
 #!/usr/bin/env python3
 """tools/rs2v_loops.py — TRANSLATOR: the LOOP functions of bnum's arithmetic core  ->  coq/Generated/Loops.v
 
-Reads $BNUM_REPO (default /repo) src/buint/{overflowing,const_trait_fillers,mul,mod,ops,checked,wrapping,cast,convert}.rs and
-src/bint/overflowing.rs, takes the functions listed in WANTED out of their `macro_rules!` bodies and translates each into a Gallina function over
+Reads $BNUM_REPO (default /repo) src/buint/{overflowing,const_trait_fillers,mul,mod,ops,checked}.rs, takes the
+`const fn`s listed in WANTED out of their `macro_rules!` bodies and translates each into a Gallina function over
 the control-flow vocabulary of coq/Model/Imp.v (res monad, arr_get/arr_set, usub, while_loop on explicit fuel) and
 the primitive vocabulary of coq/Prim.v, coq/Model/DigitPrims.v, coq/Model/LoopPrims.v, coq/Generated/DigitGen.v.
-coq/Proofs/LoopsTie*.v prove every generated function equal to the hand-written model, for all inputs: an edit of
+coq/Proofs/LoopsTie.v proves every generated function equal to the hand-written model, for all inputs: an edit of
 the Rust source that changes behaviour breaks a proof obligation.  Anything outside the supported subset makes the
 translator fail loudly (exit 1).  See tools/LOOPS_TRANSLATOR.md for the subset and the translation scheme."""
 import re, sys, os
@@ -44,87 +44,26 @@ WANTED = [
     ("src/buint/mod.rs", None, "reverse_bits", "reverse_bits"),
     ("src/buint/ops.rs", r"impl\s*<\s*const\s+N\s*:\s*usize\s*>\s*Add\s*<\s*\$Digit\s*>\s*for\s*\$BUint\s*<\s*N\s*>", "add", "add_digit"),
     ("src/buint/checked.rs", None, "div_rem_digit", "div_rem_digit"),
-    # ---- second batch (tools/LOOPS_TRANSLATOR.md, "second batch")
-    ("src/buint/mod.rs", None, "from_digit", "from_digit"),
-    ("src/buint/mod.rs", None, "digits", "digits"),
-    ("src/buint/mod.rs", None, "from_digits", "from_digits"),
-    ("src/buint/mod.rs", None, "bit", "bit"),
-    ("src/buint/mod.rs", None, "set_bit", "set_bit"),
-    ("src/buint/mod.rs", None, "power_of_two", "power_of_two"),
-    ("src/bint/overflowing.rs", None, "overflowing_add", "I_overflowing_add"),
-    ("src/bint/overflowing.rs", None, "overflowing_sub", "I_overflowing_sub"),
-    ("src/bint/overflowing.rs", None, "overflowing_neg", "I_overflowing_neg"),
-    ("src/buint/overflowing.rs", None, "overflowing_pow", "overflowing_pow"),
-    ("src/buint/checked.rs", None, "checked_pow", "checked_pow"),
-    ("src/buint/wrapping.rs", None, "wrapping_pow", "wrapping_pow"),
-    ("src/buint/mod.rs", None, "bits", "bits"),
-    ("src/buint/checked.rs", None, "checked_ilog2", "checked_ilog2"),
-    ("src/buint/checked.rs", None, "iilog", "iilog"),
-    ("src/buint/checked.rs", None, "checked_ilog10", "checked_ilog10"),
-    ("src/buint/checked.rs", None, "checked_ilog", "checked_ilog"),
-    ("src/buint/checked.rs", None, "checked_next_power_of_two", "checked_next_power_of_two"),
-    ("src/buint/checked.rs", None, "checked_next_multiple_of", "checked_next_multiple_of"),
-    ("src/buint/cast.rs", None, "cast_up", "cast_up"),
-    ("src/buint/cast.rs", None, "cast_down", "cast_down"),
-    # a function of a macro that is instantiated for several PRIMITIVE integer types: fifth component =
-    # (macro name, regex of its parameter list, the metavariable of the primitive type, regex every instantiating type must match)
-    ("src/buint/cast.rs", r"impl\s*<\s*const\s+N\s*:\s*usize\s*>\s*CastFrom\s*<\s*\$ty\s*>\s*for\s*\$BUint\s*<\s*N\s*>", "cast_from", "as_buint",
-     ("as_buint", r"\(\s*\$BUint\s*:\s*ident\s*,\s*\$Digit\s*:\s*ident\s*;\s*\$\(\s*\$ty\s*:\s*ty\s*\)\s*,\s*\*\s*\)", "$ty", r"[ui](8|16|32|64|128|size)")),
-    ("src/buint/convert.rs", r"impl\s*<\s*const\s+N\s*:\s*usize\s*>\s*From\s*<\s*\$uint\s*>\s*for\s*\$BUint\s*<\s*N\s*>", "from", "from_uint",
-     ("from_uint", r"\(\s*\$BUint\s*:\s*ident\s*,\s*\$Digit\s*:\s*ident\s*;\s*\$\(\s*\$uint\s*:\s*tt\s*\)\s*,\s*\*\s*\)", "$uint", r"u(8|16|32|64|128|size)")),
 ]
-
-# `Self` in the files of src/bint/ is $BInt<N> (a struct around `bits: $BUint<N>`)
-def selfty_of(path):
-    return "bint" if path.startswith("src/bint/") else "buint"
-
-# associated consts that a file uses but another file defines: file -> files whose `const NAME: usize|ExpType = ..;` are visible
-CONST_FILES = {"src/bint/overflowing.rs": ["src/bint/consts.rs"]}
-
-# Methods of $BUint that are NOT re-translated: the call becomes a call of the hand-written model function (qualified name),
-# exactly as tools/rs2v_glue.py does; the tie of the callee to its own source is another obligation (C02: long_mul / glue).
-# (receiver type, method) -> (Gallina head, argument types, result type)
-# flags: "outcome" - the model function returns `outcome T` (it can panic): the call is `of_outcome (..)` in the res monad;
-#        "dbg" - the model function takes the `dbg` flag (overflow checks on / off): the translated function gets a `dbg` parameter
-MODEL_CALLS = {
-    ("buint", "overflowing_mul"): ("Mul.U_overflowing_mul w", ["buint"], ("buint", "bool"), ()),
-    ("buint", "checked_mul"): ("Mul.U_checked_mul w", ["buint"], ("option", "buint"), ()),
-    ("buint", "wrapping_mul"): ("Mul.U_wrapping_mul w", ["buint"], "buint", ()),
-    ("buint", "mul"): ("Mul.U_mul dbg w", ["buint"], "buint", ("outcome", "dbg")),
-    ("buint", "sub"): ("AddSub.U_sub dbg w", ["buint"], "buint", ("outcome", "dbg")),
-    ("buint", "div"): ("Div.U_div w", ["buint"], "buint", ("outcome",)),
-    ("buint", "div_rem_unchecked"): ("Div.U_div_rem_unchecked w", ["buint"], ("buint", "buint"), ()),
-    ("buint", "checked_rem"): ("Div.U_checked_rem w", ["buint"], ("option", "buint"), ()),
-    ("buint", "checked_add"): ("AddSub.U_checked_add w", ["buint"], ("option", "buint"), ()),
-    ("buint", "gt"): ("cmp_gt (ucmp {0} {1})", ["buint"], "bool", ()),           # src/int/cmp.rs gt: `match self.cmp(&other) { Greater => true, _ => false }`
-}
 
 # which property's tie file (Proofs/LoopsTie<group>.v) is about which generated function: a function that cannot be
 # translated is replaced by a stub (so only ITS tie breaks), and with `--for Cxx` the exit status is non-zero only when a
 # function of that group (or something global: a constant definition, a missing file) could not be translated
 GROUPS = {
-    "C01": ["overflowing_add", "overflowing_sub", "add_digit", "I_overflowing_add", "I_overflowing_sub", "I_overflowing_neg"],
+    "C01": ["overflowing_add", "overflowing_sub", "add_digit"],
     "C02": ["long_mul"],
+    "C03": ["div_rem_digit", "last_digit_index"],
     "C05": ["unchecked_shl_internal", "unchecked_shr_pad_internal", "rotate_digits_left", "unchecked_rotate_left", "swap_bytes",
             "reverse_bits"],
     "C06": ["bitand", "bitor", "bitxor", "not_", "eq_", "cmp", "count_ones", "count_zeros", "leading_zeros", "trailing_zeros",
-            "leading_ones", "trailing_ones", "is_power_of_two", "is_zero", "is_one", "from_digit", "digits", "from_digits", "bit",
-            "set_bit", "power_of_two", "bits", "checked_next_power_of_two"],
-    "C09": ["cast_up", "cast_down", "as_buint"],
-    "C13": ["from_uint"],
-    "C08": ["overflowing_pow", "checked_pow", "wrapping_pow", "checked_ilog2", "iilog", "checked_ilog10", "checked_ilog"],
-    "C03": ["div_rem_digit", "last_digit_index", "checked_next_multiple_of"],
+            "leading_ones", "trailing_ones", "is_power_of_two", "is_zero", "is_one"],
 }
 LAST_MSG = [""]
 
 
-QUIET = [0]
-
-
 def die(msg):
     LAST_MSG[0] = msg
-    if not QUIET[0]:
-        sys.stderr.write("rs2v_loops: " + msg + "\n")
+    sys.stderr.write("rs2v_loops: " + msg + "\n")
     sys.exit(1)
 
 
@@ -188,11 +127,6 @@ class LP(_dig.P):
     """Parser for function bodies.  Inherits peek / expr (binary-operator precedence climbing, LEVELS) from
     rs2v_digit.P; statements, unary operators, paths, indexing, types are defined here."""
 
-    def __init__(self, toks, selfty="buint", prim=None):
-        _dig.P.__init__(self, toks)
-        self.selfty = selfty           # what `Self` means in the file being parsed
-        self.prim = prim               # the macro metavariable that stands for a primitive integer type ($uint, $ty)
-
     def eat(self, x=None):
         v = self.peek()
         if x is not None and v != x:
@@ -224,36 +158,18 @@ class LP(_dig.P):
                 ts.append(self.type_())
             self.eat(")")
             return tuple(ts)
-        if v == "[":                                   # [$Digit; N] / [$Digit; M]
-            self.eat("["), self.eat("$Digit"), self.eat(";")
-            z = self.ident()
-            self.eat("]")
-            return "digits" if z == "N" else Arr("digits", z)
         name = self.ident()
-        if self.prim is not None and name == self.prim:
-            return "PInt"
         if name in ("usize", "bool", "ExpType", "Ordering"):
             return {"Ordering": "ordering"}.get(name, name)
         if name == "u32":
             return "ExpType"
         if name == "$Digit":
             return "Digit"
-        if name == "digit":                            # digit::$Digit::SignedDigit
-            self.eat("::"), self.eat("$Digit"), self.eat("::"), self.eat("SignedDigit")
-            return "SDigit"
         if name == "Self":
-            return self.selfty
-        if name in ("$BUint", "$BInt"):
-            self.eat("<")
-            z = self.ident()
-            self.eat(">")
-            k = {"$BUint": "buint", "$BInt": "bint"}[name]
-            return k if z == "N" else Arr(k, z)
-        if name == "Option":
-            self.eat("<")
-            t = self.type_()
-            self.eat(">")
-            return ("option", t)
+            return "buint"
+        if name == "$BUint":
+            self.eat("<"), self.eat("N"), self.eat(">")
+            return "buint"
         die("unsupported type %s" % name)
 
     # ---- statements
@@ -278,15 +194,6 @@ class LP(_dig.P):
                 x = self.eat()
                 d += {"[": 1, "]": -1}.get(x, 0)
             return self.stmt()
-        if v == "const":                                # `const NAME: T = e;` inside a body: an immutable, typed `let`
-            self.eat("const")
-            name = self.ident()
-            self.eat(":")
-            ty = self.type_()
-            self.eat("=")
-            init = self.expr()
-            self.eat(";")
-            return ["let", ["pid", (name, False)], ty, init]
         if v == "let":
             self.eat("let")
             pat = self.pattern()
@@ -325,18 +232,8 @@ class LP(_dig.P):
             if self.peek() == ";":
                 self.eat(";")
             return ["block", b]
-        if v == "use":                                  # `use core::cmp::Ordering;` inside a body: no effect on the translation
-            while self.eat() != ";":
-                pass
-            return self.stmt() if self.peek() != "}" else ["block", []]
-        if v in ("for", "loop", "continue"):
+        if v in ("for", "loop", "match", "continue"):
             die("unsupported statement: %s" % v)
-        if v == "match":
-            e = self.match_()
-            if self.peek() == ";":
-                self.eat(";")
-                die("match statement whose value is discarded: not supported")
-            return ["expr", e]
         if v == "debug_assert!" or v == "assert!" or (v is not None and v.endswith("!")):
             die("macro invocation %s is not supported" % v)
         e = self.expr()
@@ -359,52 +256,6 @@ class LP(_dig.P):
             self.eat("else")
             b = [self.if_()] if self.peek() == "if" else self.block()
         return ["if", c, a, b]
-
-    def match_(self):
-        """match e { pat => body, .. }   pat ::= Some(x) | None | A::B | _ ;  body ::= expr | { block } | return e"""
-        self.eat("match")
-        scrut = self.expr()
-        self.eat("{")
-        arms = []
-        while self.peek() != "}":
-            v = self.peek()
-            if v == "_":
-                self.eat()
-                pat = ["pwild"]
-            elif v == "Some":
-                self.eat()
-                self.eat("(")
-                pat = ["psome", self.ident()]
-                self.eat(")")
-            elif v == "None":
-                self.eat()
-                pat = ["pnone"]
-            elif v is not None and IDENT.match(v) and v not in KEYWORDS:
-                segs = [self.eat()]
-                while self.peek() == "::":
-                    self.eat("::")
-                    segs.append(self.ident())
-                if len(segs) < 2:
-                    die("match pattern that binds a variable (%s): not supported" % segs[0])
-                pat = ["ppath", segs]
-            else:
-                die("unsupported match pattern starting with %r" % v)
-            if self.peek() == "if":
-                die("match guards are not supported")
-            self.eat("=")
-            self.eat(">")
-            if self.peek() == "return":
-                self.eat("return")
-                body = ["ret", self.expr()]
-            else:
-                body = self.expr()
-            arms.append((pat, body))
-            if self.peek() == ",":
-                self.eat(",")
-            elif self.peek() != "}" and not (isinstance(body, list) and body[0] == "blockx"):
-                die("expected ',' or '}' after a match arm, got %r" % self.peek())
-        self.eat("}")
-        return ["match", scrut, arms]
 
     def pattern(self):
         def one():
@@ -436,8 +287,7 @@ class LP(_dig.P):
         if v in ("!", "&", "-", "*"):
             self.eat()
             if v == "&" and self.peek() == "mut":
-                self.eat("mut")
-                return ["refmut", self.unary()]
+                die("&mut is not supported")
             return ["un", v, self.unary()]
         return self.postfix()
 
@@ -499,18 +349,6 @@ class LP(_dig.P):
             return ["blockx", self.block()]
         if v == "{":
             return ["blockx", self.block()]
-        if v == "<" and self.prim is not None and self.peek(1) == self.prim and self.peek(2) == ">" and self.peek(3) == "::":
-            self.eat(), self.eat(), self.eat(), self.eat()   # <$ty>::NAME
-            return ["path", [self.prim, self.ident()]]
-        if v == "[":                                   # [e; M]: an array of M copies of e
-            self.eat("[")
-            e = self.expr()
-            self.eat(";")
-            z = self.ident()
-            self.eat("]")
-            return ["arrep", e, z]
-        if v == "match":
-            return self.match_()
         if v is not None and re.match(r"^\d[\d_]*$", v):
             self.eat()
             return ["lit", int(v.replace("_", ""))]
@@ -526,11 +364,6 @@ class LP(_dig.P):
                 segs.append(self.ident())
             if self.peek() == "(":
                 return ["pcall", segs, self.args()]
-            if segs == ["Self"] and self.peek() == "{" and self.peek(1) in ("digits", "bits") and self.peek(2) == "}":
-                self.eat("{")                          # `Self { digits }` / `Self { bits }`: the struct around one array
-                f = self.eat()
-                self.eat("}")
-                return ["struct", f, ["var", f]]
             if len(segs) == 1:
                 return ["var", segs[0]]
             return ["path", segs]
@@ -540,69 +373,31 @@ class LP(_dig.P):
 # ---------------------------------------------------------------- types
 
 class TVar:
-    """the not-yet-determined type of an integer literal (any = True: of the payload of a `None`)"""
-    def __init__(self, any=False):
+    """the not-yet-determined type of an integer literal"""
+    def __init__(self):
         self.ref = None
-        self.any = any
-
-
-class Arr:
-    """$BUint<M>, $BInt<M>, [$Digit; M] for a size M other than N (the name of a `const M: usize` generic), or of a size
-    that is still to be inferred (`$BUint::ZERO`, a call `$BUint::f(..)`: size = TVar(any=True))"""
-    def __init__(self, kind, size):
-        self.kind, self.size = kind, size
-
-
-def rs_size(z):
-    while isinstance(z, TVar) and z.ref is not None:
-        z = z.ref
-    return z
 
 
 def rs(t):
     while isinstance(t, TVar) and t.ref is not None:
         t = t.ref
-    if isinstance(t, Arr) and rs_size(t.size) == "N":
-        return t.kind                              # size N: the plain types "buint" / "bint" / "digits"
     return t
 
 
-def unify_size(x, y, what):
-    x, y = rs_size(x), rs_size(y)
-    if x is y or x == y:
-        return
-    if isinstance(x, TVar):
-        x.ref = y
-    elif isinstance(y, TVar):
-        y.ref = x
-    else:
-        die("type mismatch in %s: array of %s vs %s digits" % (what, x, y))
-
-
-INTS = ("Digit", "usize", "ExpType", "SDigit", "PInt")
+INTS = ("Digit", "usize", "ExpType")
 
 
 def is_int(t):
     t = rs(t)
-    return (isinstance(t, TVar) and not t.any) or t in INTS
+    return isinstance(t, TVar) or t in INTS
 
 
 def unify(a, b, what):
     a, b = rs(a), rs(b)
     if a is b:
         return a
-    if (isinstance(a, Arr) or a in ARRAYS) and (isinstance(b, Arr) or b in ARRAYS):
-        ka, za = (a.kind, a.size) if isinstance(a, Arr) else (a, "N")
-        kb, zb = (b.kind, b.size) if isinstance(b, Arr) else (b, "N")
-        if ka != kb:
-            die("type mismatch in %s: %s vs %s" % (what, show(a), show(b)))
-        unify_size(za, zb, what)
-        return rs(Arr(ka, za))
     if isinstance(a, TVar):
-        if isinstance(b, TVar) and b.any and not a.any:
-            b.ref = a
-            return a
-        if not a.any and not is_int(b):
+        if not is_int(b):
             die("type mismatch in %s: integer vs %s" % (what, show(b)))
         a.ref = b
         return b
@@ -618,36 +413,19 @@ def unify(a, b, what):
 def show(t):
     t = rs(t)
     if isinstance(t, TVar):
-        return "{unknown}" if t.any else "{integer}"
-    if isinstance(t, Arr):
-        z = rs_size(t.size)
-        return "%s<%s>" % (t.kind, "?" if isinstance(z, TVar) else z)
-    if is_opt(t):
-        return "Option<%s>" % show(t[1])
+        return "{integer}"
     if isinstance(t, tuple):
         return "(" + ", ".join(show(x) for x in t) + ")"
     return t
 
 
-def is_opt(t):
-    return isinstance(t, tuple) and len(t) == 2 and t[0] == "option"
-
-
-ARRAYS = ("buint", "bint", "digits")      # all three are `list Z` in Gallina (a struct around one array is the array)
-
-
 def coq_ty(t):
     t = rs(t)
-    if is_opt(t):
-        inner = coq_ty(t[1])
-        return "(option %s)" % (inner if inner.startswith("(") or " " not in inner else "(" + inner + ")")
     if isinstance(t, tuple):
         return "(" + " * ".join(coq_ty(x) for x in t) + ")"
     if isinstance(t, TVar) or t in INTS:
         return "Z"
-    if isinstance(t, Arr):
-        return "list Z"
-    return {"bool": "bool", "buint": "list Z", "bint": "list Z", "digits": "list Z", "ordering": "comparison"}[t]
+    return {"bool": "bool", "buint": "list Z", "ordering": "comparison"}[t]
 
 
 DIGIT_METHODS = {   # Digit method -> (Gallina head applied to the receiver, result type)
@@ -656,57 +434,25 @@ DIGIT_METHODS = {   # Digit method -> (Gallina head applied to the receiver, res
     "leading_ones": ("u_leading_ones w", "ExpType"), "trailing_ones": ("u_trailing_ones w", "ExpType"),
     "swap_bytes": ("u_swap_bytes w", "Digit"), "reverse_bits": ("u_reverse_bits w", "Digit"),
 }
-POS_CONSTS = {"ONE": 1, "TWO": 2, "THREE": 3, "FOUR": 4, "FIVE": 5, "SIX": 6, "SEVEN": 7, "EIGHT": 8, "NINE": 9, "TEN": 10}
-RESERVED = {"w", "N", "fuel", "None", "Some", "pb", "dbg"}
+RESERVED = {"w", "N", "fuel"}
 
 
 class Var:
-    def __init__(self, ty, mut, patvar=False):
-        self.ty, self.mut, self.patvar = ty, mut, patvar
+    def __init__(self, ty, mut):
+        self.ty, self.mut = ty, mut
 
 
 class Gen:
     """One instance per translated function; run twice (pass 1 determines the types of integer literals)."""
 
     def __init__(self, fname, sigs, digit_sigs, consts, tvs, final):
-        """fname: the Gallina name (key of sigs) of the function being translated"""
         self.fname, self.sigs, self.digit_sigs, self.consts = fname, sigs, digit_sigs, consts
         self.tvs, self.final = tvs, final
         self.ntmp = 0
         self.ret = sigs[fname]["ret"]
-        self.selfty = sigs[fname]["selfty"]
-        self.uses_dbg = False
-        self.recursive = False
-        self.sizes = [g for g, t in sigs[fname]["generics"] if t == "usize"]   # `const M: usize` generics
-        self.prim = sigs[fname]["prim"]                # the metavariable of the unsigned primitive type ($uint), or None
-
-    def size_str(self, z, what):
-        """the Gallina term for an array size: N, a usize generic, or (final pass) an inferred one"""
-        z = rs_size(z)
-        if isinstance(z, TVar):
-            if self.final:
-                self.die("cannot determine the size of " + what)
-            return "N"
-        if z != "N" and z not in self.sizes:
-            self.die("array size %s is not N or a `const %s: usize` parameter" % (z, z))
-        return z
-
-    def kind_of(self, t):
-        """buint / bint / digits for an array type of any size, else None"""
-        t = rs(t)
-        if isinstance(t, Arr):
-            return t.kind
-        return t if t in ARRAYS else None
-
-    def lookup(self, ty, name, method):
-        """the translated function called `name` of the impl of type ty (method: must take self)"""
-        for sg in self.sigs.values():
-            if sg["rust"] == name and sg["selfty"] == ty and sg["callable"] and (not method or sg["self"]):
-                return sg
-        return None
 
     def die(self, msg):
-        die("in fn %s: %s" % (self.sigs[self.fname]["rust"] if self.fname in self.sigs else self.fname, msg))
+        die("in fn %s: %s" % (self.fname, msg))
 
     def tmp(self):
         self.ntmp += 1
@@ -715,14 +461,6 @@ class Gen:
     def tv(self, node):
         if id(node) not in self.tvs:
             self.tvs[id(node)] = (node, TVar())          # keep the node alive: ids stay unique
-        return self.tvs[id(node)][1]
-
-    def is_ref(self, t):
-        return isinstance(t, tuple) and len(t) == 3 and t[0] == "ref"
-
-    def tv_any(self, node):
-        if id(node) not in self.tvs:
-            self.tvs[id(node)] = (node, TVar(any=True))
         return self.tvs[id(node)][1]
 
     def need(self, t, what):
@@ -741,8 +479,6 @@ class Gen:
             n = e[1]
             if n == "N":
                 return [], "N", "usize"
-            if n == "None" and n not in env:
-                return [], "None", ("option", self.tv_any(e))
             if n not in env:
                 self.die("unbound variable " + n)
             return [], n, env[n].ty
@@ -751,11 +487,7 @@ class Gen:
         if k == "bool":
             return [], "true" if e[1] else "false", "bool"
         if k == "path":
-            return self.path(e[1], env, e)
-        if k == "arrep":
-            p, v, t = self.ex(e[1], env)
-            unify(t, "Digit", "element of [e; %s]" % e[2])
-            return p, "(repeat %s (Z.to_nat %s))" % (v, self.size_str(e[2], "[e; %s]" % e[2])), rs(Arr("digits", e[2]))
+            return self.path(e[1], env)
         if k == "tuple":
             pre, vs, ts = [], [], []
             for x in e[1]:
@@ -767,11 +499,7 @@ class Gen:
         if k == "field":
             p, v, t = self.ex(e[1], env)
             t = rs(t)
-            if e[2] == "bits" and self.kind_of(t) == "bint":        # struct $BInt { bits: $BUint }: same digit list
-                return p, v, rs(Arr("buint", t.size)) if isinstance(t, Arr) else "buint"
-            if e[2] == "digits" and self.kind_of(t) == "buint":     # struct $BUint { digits: [$Digit; N] }
-                return p, v, rs(Arr("digits", t.size)) if isinstance(t, Arr) else "digits"
-            if not (isinstance(t, tuple) and not is_opt(t) and len(t) == 2 and e[2] in ("0", "1")):
+            if not (isinstance(t, tuple) and len(t) == 2 and e[2] in ("0", "1")):
                 self.die("unsupported field access .%s on %s" % (e[2], show(t)))
             return p, "(%s %s)" % ("fst" if e[2] == "0" else "snd", v), t[int(e[2])]
         if k == "index":
@@ -784,18 +512,10 @@ class Gen:
             op = e[1]
             if op == "&":
                 return self.ex(e[2], env)
-            if op == "*":
-                if e[2][0] == "var" and e[2][1] in env and self.is_ref(env[e[2][1]].ty):
-                    _, arr, ix = env[e[2][1]].ty
-                    x = self.tmp()
-                    return ["%s <- arr_get %s %s ;;" % (x, arr, ix)], x, "Digit"
-                self.die("unsupported dereference " + str(e[2]))
             p, v, t = self.ex(e[2], env)
             if op == "!":
                 if rs(t) == "bool":
                     return p, "(negb %s)" % v, "bool"
-                if isinstance(rs(t), TVar) and not self.final:
-                    return p, "0", t                   # type not yet known (first pass): decided by the context
                 if self.need(t, "operand of !") == "Digit":
                     return p, "(u_not w %s)" % v, "Digit"
                 self.die("unsupported operand type for !: " + show(t))
@@ -813,14 +533,6 @@ class Gen:
                 return p, v, dst
             if src == dst:
                 return p, v, dst
-            if (src, dst) == ("Digit", "SDigit"):        # same conventions as tools/rs2v_digit.py (Prim.v: sd / ud)
-                return p, "(sd w %s)" % v, dst
-            if (src, dst) == ("SDigit", "Digit"):
-                return p, "(ud w %s)" % v, dst
-            if (src, dst) == ("bool", "Digit"):
-                return p, "(Z.b2z %s)" % v, dst
-            if (src, dst) == ("PInt", "Digit"):         # primitive integer -> digit: truncation / zero or sign extension = the value mod 2^w
-                return p, "(ud w %s)" % v, dst
             self.die("unsupported cast %s as %s" % (show(src), show(dst)))
         if k == "bin":
             return self.bin(e, env)
@@ -838,15 +550,6 @@ class Gen:
             return pc, "(if %s then %s else %s)" % (vc, va, vb), t
         if k == "blockx":
             return self.value_block(e[1], env)
-        if k == "struct":
-            p, v, t = self.ex(e[2], env)
-            want, got = {"buint": ("digits", "digits"), "bint": ("bits", "buint")}[self.selfty]
-            if e[1] != want:
-                self.die("struct literal Self { %s }" % e[1])
-            unify(t, got, "field of the struct literal")
-            return p, v, self.selfty
-        if k == "refmut":
-            self.die("`&mut` is only supported as `let d = &mut x.digits[e];`")
         if k == "mcall":
             return self.mcall(e, env)
         if k == "pcall":
@@ -867,44 +570,19 @@ class Gen:
         return "(" + " ".join(pre + [last]) + ")"
 
     def array_of(self, e, env):
-        """`x.digits` / `(&x.digits)` (x: $BUint), `x.bits.digits` (x: $BInt), `x` (x: [$Digit; N]) -> the variable x"""
+        """`x.digits` / `(&x.digits)` -> x (a variable of type BUint)"""
         while e[0] == "un" and e[1] == "&":
             e = e[2]
-        want = "digits"
-        if e[0] == "field" and e[2] == "digits":
-            e, want = e[1], "buint"
-            if e[0] == "field" and e[2] == "bits":
-                e, want = e[1], "bint"
-        if e[0] == "var" and e[1] in env and self.kind_of(env[e[1]].ty) == want:
-            return e[1]
+        if e[0] == "field" and e[2] == "digits" and e[1][0] == "var" and e[1][1] in env and rs(env[e[1][1]].ty) == "buint":
+            return e[1][1]
         self.die("unsupported array expression " + str(e))
 
-    def path(self, segs, env, node=None):
+    def path(self, segs, env):
         s = tuple(segs)
-        if s[:2] == ("crate", "digit"):                # `crate::digit::..` is `digit::..` (the files `use crate::digit;`)
-            s = s[1:]
-        if s[0] != "Self" and self.sizes and s in (("$BUint", "ZERO"), ("$BUint", "MIN"), ("$BUint", "MAX")):
-            # in a function with `const M: usize` parameters the size of `$BUint::ZERO` is inferred by Rust from its use
-            z = self.tv_any(node)
-            n = "(Z.to_nat %s)" % self.size_str(z, "$BUint::" + s[1])
-            return [], ("(UMAX w %s)" if s[1] == "MAX" else "(ZERO %s)") % n, rs(Arr("buint", z))
-        if s[0] == "Self":                             # resolve Self to the type of the impl
-            s = ({"buint": "$BUint", "bint": "$BInt"}[self.selfty],) + s[1:]
-        if s in (("$BUint", "ZERO"), ("$BUint", "MIN")):
+        if s in (("Self", "ZERO"), ("$BUint", "ZERO"), ("Self", "MIN"), ("$BUint", "MIN")):
             return [], "(ZERO (Z.to_nat N))", "buint"
-        if s == ("$BUint", "MAX"):
+        if s in (("Self", "MAX"), ("$BUint", "MAX")):
             return [], "(UMAX w (Z.to_nat N))", "buint"
-        if s == ("$BInt", "ZERO"):                     # bint/consts.rs: ZERO = Self::from_bits($BUint::ZERO) (pattern-checked)
-            return [], "(ZERO (Z.to_nat N))", "bint"
-        if len(s) == 2 and s[0] == "$BUint" and s[1] in POS_CONSTS:
-            # buint/consts.rs: pos_const!(ONE 1, ..): `pub const $name: Self = Self::from_digit($num);` (pattern-checked)
-            sg = self.lookup("buint", "from_digit", False)
-            if sg is None:
-                self.die("Self::%s is Self::from_digit(%d), which is not translated" % (s[1], POS_CONSTS[s[1]]))
-            x = self.tmp()
-            return ["%s <- %s w N fuel %d ;;" % (x, sg["coq"], POS_CONSTS[s[1]])], x, "buint"
-        if self.prim is not None and s == (self.prim, "BITS"):
-            return [], "pb", "ExpType"                 # $uint::BITS: the parameter pb of the generated function
         if s == ("$Digit", "MAX"):
             return [], "(u_max w)", "Digit"
         if s == ("$Digit", "MIN"):
@@ -915,37 +593,21 @@ class Gen:
             return [], "(digit_BIT_SHIFT w)", "ExpType"
         if s == ("digit", "$Digit", "BITS_MINUS_1"):
             return [], "(digit_BITS_MINUS_1 w)", "ExpType"
-        if s == ("$BUint", "BITS"):
+        if s in (("Self", "BITS"), ("$BUint", "BITS")):
             return [], "(w * N)", "ExpType"
         if s[0] == "Ordering" and len(s) == 2 and s[1] in ("Less", "Equal", "Greater"):
             return [], {"Less": "Lt", "Equal": "Eq", "Greater": "Gt"}[s[1]], "ordering"
-        if len(s) == 2 and s[0] == {"buint": "$BUint", "bint": "$BInt"}[self.selfty] and s[1] in self.consts:
+        if len(s) == 2 and s[0] == "Self" and s[1] in self.consts:
             ty, expr = self.consts[s[1]]
-            if ty is None:
-                self.die(expr)
             p, v, t = self.ex(expr, {})
             unify(t, ty, "associated const " + s[1])
             return p, v, ty
         self.die("unsupported path " + "::".join(segs))
 
-    def call_translated(self, sig, recv, args, env, size=None):
-        """size: None - the callee is instantiated at N;  a TVar - at a size to be inferred (`$BUint::f(..)`)"""
-        name = sig["rust"]
+    def call_translated(self, name, recv, args, env):
+        sig = self.sigs[name]
         allargs = ([recv] if sig["self"] else []) + list(args)
-        formal = ([("self", sig["selfty"])] if sig["self"] else []) + sig["params"]
-        ret = sig["ret"]
-        if size is not None:
-            def inst(t):
-                t = rs(t)
-                if t in ARRAYS:
-                    return rs(Arr(t, size))
-                if isinstance(t, Arr):
-                    self.die("call of %s at an inferred size: its signature mentions another size" % name)
-                if isinstance(t, tuple):
-                    return tuple(inst(x) for x in t)
-                return t
-            formal = [(pn, inst(pt)) for pn, pt in formal]
-            ret = inst(ret)
+        formal = ([("self", "buint")] if sig["self"] else []) + sig["params"]
         if len(allargs) != len(formal):
             self.die("call of %s with %d arguments, expected %d" % (name, len(allargs), len(formal)))
         pre, vs = [], []
@@ -957,14 +619,7 @@ class Gen:
         if sig["generics"]:
             self.die("call of %s, which has const generic parameters: not supported" % name)
         x = self.tmp()
-        fuel = "fuel"
-        if sig["coq"] == self.fname:                   # recursion: on the explicit budget (one unit per nested call)
-            self.recursive = True
-            fuel = "fuel'"
-        if sig["dbg"]:
-            self.uses_dbg = True
-        nn = "N" if size is None else self.size_str(size, "the call of " + name)
-        return pre + ["%s <- %s %sw %s %s %s ;;" % (x, sig["coq"], "dbg " if sig["dbg"] else "", nn, fuel, " ".join(vs))], x, ret
+        return pre + ["%s <- %s w N fuel %s ;;" % (x, sig["coq"], " ".join(vs))], x, sig["ret"]
 
     def mcall(self, e, env):
         _, recv, name, args = e
@@ -978,29 +633,9 @@ class Gen:
             return p1 + p2, "(ix_saturating_sub %s %s)" % (v1, v2), t
         p, v, t = self.ex(recv, env)
         t0 = rs(t)
-        if isinstance(t0, Arr):
-            self.die("method call .%s on %s (a size other than N): not supported" % (name, show(t0)))
-        if t0 in ("buint", "bint"):
-            sg = self.lookup(t0, name, True)
-            if sg is not None:
-                return self.call_translated(sg, recv, args, env)
-            if (t0, name) in MODEL_CALLS:
-                head, ptys, rty, flags = MODEL_CALLS[(t0, name)]
-                if len(args) != len(ptys):
-                    self.die("call of %s with %d arguments, expected %d" % (name, len(args), len(ptys)))
-                pre, vs = list(p), [v]
-                for a, pt in zip(args, ptys):
-                    p2, v2, t2 = self.ex(a, env)
-                    unify(t2, pt, "argument of " + name)
-                    pre += p2
-                    vs.append(v2)
-                if "dbg" in flags:
-                    self.uses_dbg = True
-                call = head.format(*vs) if "{0}" in head else head + " " + " ".join(vs)
-                if "outcome" in flags:
-                    x = self.tmp()
-                    return pre + ["%s <- of_outcome (%s) ;;" % (x, call)], x, rty
-                return pre, "(%s)" % call, rty
+        if t0 == "buint":
+            if name in self.sigs and self.sigs[name]["self"]:
+                return self.call_translated(name, recv, args, env)
             self.die("call of method %s, which is not a translated function" % name)
         if isinstance(t0, TVar):
             self.die("method %s on an integer of undetermined type" % name)
@@ -1012,18 +647,6 @@ class Gen:
                 p2, v2, t2 = self.ex(args[0], env)
                 unify(t2, "Digit", "argument of " + name)
                 return p + p2, "(%s w %s %s)" % ({"overflowing_add": "u_ovf_add", "overflowing_sub": "u_ovf_sub"}[name], v, v2), ("Digit", "bool")
-        if t0 == "PInt" and name == "wrapping_shr" and len(args) == 1:
-            p2, v2, t2 = self.ex(args[0], env)
-            unify(t2, "ExpType", "argument of wrapping_shr")
-            return p + p2, "(p_wrapping_shr pb %s %s)" % (v, v2), "PInt"
-        if t0 == "ExpType" and name == "checked_sub" and len(args) == 1:
-            p2, v2, t2 = self.ex(args[0], env)
-            unify(t2, "ExpType", "argument of checked_sub")
-            return p + p2, "(ix_checked_sub %s %s)" % (v, v2), ("option", "ExpType")
-        if t0 == "SDigit" and name in ("overflowing_add", "overflowing_sub") and len(args) == 1:
-            p2, v2, t2 = self.ex(args[0], env)
-            unify(t2, "SDigit", "argument of " + name)
-            return p + p2, "(%s w %s %s)" % ({"overflowing_add": "s_ovf_add", "overflowing_sub": "s_ovf_sub"}[name], v, v2), ("SDigit", "bool")
         self.die("unsupported method call .%s on %s" % (name, show(t0)))
 
     def pcall(self, e, env):
@@ -1040,20 +663,13 @@ class Gen:
                 pre += p
                 vs.append(v)
             return pre, "(DigitGen.%s w %s)" % (s[2], " ".join(vs)), rty
-        if s == ("Some",) and len(args) == 1:
-            p, v, t = self.ex(args[0], env)
-            return p, "(Some %s)" % v, ("option", t)
-        if len(s) == 2 and s[0] in ("Self", "$BUint", "$BInt"):
-            ty = {"Self": self.selfty, "$BUint": "buint", "$BInt": "bint"}[s[0]]
-            sig = self.lookup(ty, s[1], False)
-            if sig is not None:
-                # `$BUint::f(..)` in a function with `const M: usize` parameters: Rust infers the size of the callee's type
-                size = self.tv_any(e) if (s[0] != "Self" and self.sizes) else None
-                if sig["self"]:
-                    if not args:
-                        self.die("call of Self::%s without receiver" % s[1])
-                    return self.call_translated(sig, args[0], args[1:], env, size)
-                return self.call_translated(sig, None, args, env, size)
+        if len(s) == 2 and s[0] in ("Self", "$BUint") and s[1] in self.sigs:
+            sig = self.sigs[s[1]]
+            if sig["self"]:
+                if not args:
+                    self.die("call of Self::%s without receiver" % s[1])
+                return self.call_translated(s[1], args[0], args[1:], env)
+            return self.call_translated(s[1], None, args, env)
         self.die("unsupported call " + "::".join(segs))
 
     def bin(self, e, env):
@@ -1085,22 +701,12 @@ class Gen:
         if op in ("<<", ">>"):
             if not is_int(tb):
                 self.die("shift amount of type " + show(tb))
-            if isinstance(rs(ta), TVar) and not self.final:
-                return pre, "0", ta                    # type not yet known (first pass): decided by the context
             t = self.need(ta, "left operand of " + op)
             if t == "Digit":
                 x = self.tmp()
                 return pre + ["%s <- %s w %s %s ;;" % (x, {"<<": "dshl", ">>": "dshr"}[op], va, vb)], x, "Digit"
             if t in ("usize", "ExpType") and op == ">>":
                 return pre, "(ix_shr %s %s)" % (va, vb), t
-            if t == "usize" and op == "<<":                # index arithmetic (`i << BIT_SHIFT`): unbounded, like `+`
-                return pre, "(ix_shl %s %s)" % (va, vb), t
-            if t == "PInt" and op == ">>":                # $int >> s (on the value: floor division, i.e. arithmetic for a signed type); s >= BITS panics
-                x = self.tmp()
-                return pre + ["%s <- pshr pb %s %s ;;" % (x, va, vb)], x, t
-            if t == "ExpType" and op == "<<":              # u32 << s: the bits shifted out are lost; s >= 32 panics
-                x = self.tmp()
-                return pre + ["%s <- eshl %s %s ;;" % (x, va, vb)], x, t
             self.die("unsupported shift %s on %s" % (op, t))
         t = unify(ta, tb, "operands of " + op)
         if rs(t) == "bool":
@@ -1129,8 +735,6 @@ class Gen:
     # ctx: {"loop": None | [state names], "protected": set of names that may not be re-declared here}
     def finish(self, ctx, env):
         if ctx["loop"] is None:
-            if self.sigs[self.fname]["mutref"]:
-                return "Done self"                     # fn f(&mut self, ..): the result is the updated *self
             self.die("function body falls off its end without a value")
         return "Done (Continue %s)" % self.tup(ctx["loop"])
 
@@ -1165,8 +769,6 @@ class Gen:
                 return self.stmts([["if", s[1][1], s[1][2], s[1][3]]], env, ctx, ind)
             if s[1][0] == "blockx":
                 return self.stmts([["block", s[1][1]]], env, ctx, ind)
-            if s[1][0] == "match":
-                return self.match_stmt(s[1], None, [], env, ctx, ind)
             p, v, t = self.ex(s[1], env)
             unify(t, self.ret, "returned value")
             return self.lines(p + ["Done " + v], pad)
@@ -1193,23 +795,6 @@ class Gen:
                 self.declare(env, name, ty, mut, ctx)
                 # Rust guarantees assignment before use: the initial value is never read
                 return pad + "let %s := 0 in (* declared without initialiser *)\n" % name + self.stmts(rest, env, ctx, ind)
-            if init[0] == "match":
-                return self.match_stmt(init, lambda body: ["let", pat, ty, body], rest, env, ctx, ind)
-            if init[0] == "refmut":
-                # `let d = &mut x.digits[e];`: d names the place x.digits[e].  The index is evaluated and bounds-checked
-                # here; `*d` reads the place, `*d = v` writes it.  (The borrow checker guarantees that x is not accessed
-                # otherwise while d is live.)
-                if pat[0] != "pid" or pat[1][1] or ty is not None or init[1][0] != "index":
-                    self.die("`&mut` is only supported as `let d = &mut x.digits[e];`")
-                arr = self.array_of(init[1][1], env)
-                if not env[arr].mut:
-                    self.die("&mut borrow of a digit of immutable variable " + arr)
-                p, v, t = self.ex(init[1][2], env)
-                unify(t, "usize", "array index")
-                ix, chk = self.tmp(), self.tmp()
-                self.declare(env, pat[1][0], ("ref", arr, ix), False, ctx)
-                return (self.lines(p + ["let %s := %s in" % (ix, v), "%s <- arr_get %s %s ;;" % (chk, arr, ix)], pad) + "\n"
-                        + self.stmts(rest, env, ctx, ind))
             p, v, t = self.ex(init, env)
             if ty is not None:
                 t = unify(t, ty, "let with type annotation")
@@ -1227,8 +812,6 @@ class Gen:
             return self.lines(p + [line], pad) + "\n" + self.stmts(rest, env, ctx, ind)
         if k == "assign":
             _, lhs, op, rhs = s
-            if rhs[0] == "match":
-                return self.match_stmt(rhs, lambda body: ["assign", lhs, op, body], rest, env, ctx, ind)
             if lhs[0] == "var":
                 name = lhs[1]
                 if name not in env:
@@ -1245,13 +828,6 @@ class Gen:
                     p = p[:-1] + [name + p[-1][len(v):]]
                     return self.lines(p, pad) + "\n" + self.stmts(rest, env, ctx, ind)
                 return self.lines(p + ["let %s := %s in" % (name, v)], pad) + "\n" + self.stmts(rest, env, ctx, ind)
-            if lhs[0] == "un" and lhs[1] == "*" and lhs[2][0] == "var" and lhs[2][1] in env and self.is_ref(env[lhs[2][1]].ty):
-                _, arr, ix = env[lhs[2][1]].ty
-                if op != "=":
-                    self.die("compound assignment through a reference: not supported")
-                p, v, t = self.ex(rhs, env)
-                unify(t, "Digit", "digit assignment")
-                return self.lines(p + ["%s <- arr_set %s %s %s ;;" % (arr, arr, ix, v)], pad) + "\n" + self.stmts(rest, env, ctx, ind)
             if lhs[0] == "index":
                 arr = self.array_of(lhs[1], env)
                 if not env[arr].mut:
@@ -1292,11 +868,10 @@ class Gen:
             # the loop state: the variables of the context that the body assigns, in a canonical order
             # (arrays, bools, digits, u32s, usizes; declaration order within a class) so that re-ordering
             # independent `let`s of different types in the source does not change the generated term
-            rank = {"buint": 0, "bint": 0, "digits": 0, "bool": 1, "Digit": 2, "SDigit": 2, "PInt": 2, "ExpType": 3, "usize": 4}
+            rank = {"buint": 0, "bool": 1, "Digit": 2, "ExpType": 3, "usize": 4}
             asg = self.assigned(body)
             state = [n for n in env if n in asg]
-            state = [n for _, _, n in sorted((rank.get((self.kind_of(env[n].ty) or rs(env[n].ty))
-                                                       if not isinstance(rs(env[n].ty), (TVar, tuple)) else "", 5), k, n)
+            state = [n for _, _, n in sorted((rank.get(rs(env[n].ty) if not isinstance(rs(env[n].ty), (TVar, tuple)) else "", 5), k, n)
                                              for k, n in enumerate(state))]
             for n in state:
                 if not env[n].mut:
@@ -1306,18 +881,11 @@ class Gen:
             benv = self.copy(env)
             pc, vc, tc = self.ex(c, benv)
             unify(tc, "bool", "while condition")
+            if pc:
+                self.die("while condition with effects (array access / subtraction): not supported")
             enclosing = set(ctx["loop"] or []) | ctx.get("outer_states", set())
             bctx = {"loop": state, "protected": set(state) | enclosing, "outer_states": enclosing}
-            if pc:
-                # a condition that can panic (`i < N - 1`: checked subtraction) is evaluated at the top of the body:
-                # `while c { b }`  ==  `while true { if c { b } else { break } }`
-                tbody = self.stmts(body, benv, bctx, ind + 3)
-                pad2 = pad + "    "
-                tbody = (self.lines(pc + ["if %s then (" % vc], pad2) + "\n" + tbody + "\n" + pad2 + ") else (\n"
-                         + pad2 + "  Done (Break %s)\n" % self.tup(state) + pad2 + ")")
-                vc = "true"
-            else:
-                tbody = self.stmts(body, benv, bctx, ind + 2)
+            tbody = self.stmts(body, benv, bctx, ind + 2)
             r = self.tmp()
             v = self.tmp()
             after = self.stmts(rest, env, ctx, ind + 2)
@@ -1332,68 +900,6 @@ class Gen:
             return out
         self.die("unsupported statement " + str(s))
 
-    def match_stmt(self, m, mk, rest, env, ctx, ind):
-        """`match scrut { arms }` on an Option or an Ordering.  mk is None: the match is the tail of a block and every arm
-        is a value / a block / `return e`; otherwise mk(arm value) is the statement (`let p = <arm>` / `x = <arm>`) that
-        consumes the value of a non-returning arm, followed by `rest` (duplicated into the arms, like the branches of `if`)."""
-        _, scrut, arms = m
-        pad = "  " * ind
-        p, v, t = self.ex(scrut, env)
-        t = rs(t)
-        if is_opt(t):
-            universe = ["Some", "None"]
-        elif t == "ordering":
-            universe = ["Lt", "Eq", "Gt"]
-        else:
-            self.die("match on a value of type %s: only Option and Ordering are supported" % show(t))
-        seen, out = [], []
-        inner = dict(ctx, protected=set(env.keys()) | ctx["protected"])
-        for pat, body in arms:
-            env2 = self.copy(env)
-            if pat[0] == "pwild":
-                if len(seen) == len(universe):
-                    self.die("unreachable `_` arm in match")
-                seen = list(universe)
-                head = "_"
-            else:
-                if pat[0] == "psome":
-                    c = "Some"
-                elif pat[0] == "pnone":
-                    c = "None"
-                elif pat[0] == "ppath" and len(pat[1]) == 2 and pat[1][0] == "Ordering" and pat[1][1] in ("Less", "Equal", "Greater"):
-                    c = {"Less": "Lt", "Equal": "Eq", "Greater": "Gt"}[pat[1][1]]
-                else:
-                    self.die("unsupported match pattern " + str(pat))
-                if c not in universe:
-                    self.die("pattern %s does not match the type %s" % (c, show(t)))
-                if c in seen:
-                    self.die("duplicate match arm " + c)
-                seen.append(c)
-                head = c
-                if c == "Some":
-                    x = pat[1]
-                    if x in RESERVED or re.match(r"^t\d+$", x) or x == "N":
-                        self.die("pattern variable name %s is reserved by the translator" % x)
-                    if x in env2 and not env2[x].patvar:
-                        self.die("pattern variable %s shadows a variable: not supported" % x)
-                    env2.pop(x, None)
-                    env2[x] = Var(t[1], False, True)
-                    head = "Some " + x
-            if isinstance(body, list) and body[0] == "ret":
-                ss = [["return", body[1]]]
-                txt = self.stmts(ss, env2, ctx, ind + 2)
-            elif mk is None:
-                ss = body[1] if body[0] == "blockx" else [["expr", body]]
-                txt = self.stmts(ss, env2, inner, ind + 2)
-            else:
-                if body[0] == "blockx" and not (len(body[1]) == 1 and body[1][0][0] == "expr"):
-                    self.die("a match arm with statements whose value is used by let / assignment: not supported")
-                txt = self.stmts([mk(body)] + list(rest), env2, ctx, ind + 2)
-            out.append(pad + "| %s => (\n%s\n%s  )" % (head, txt, pad))
-        if len(seen) != len(universe):
-            self.die("non-exhaustive match on " + show(t))
-        return self.lines(p + ["match %s with" % v], pad) + "\n" + "\n".join(out) + "\n" + pad + "end"
-
     def splice(self, blk, rest):
         if blk and blk[-1][0] == "expr" and rest:
             self.die("block with a value followed by more statements")
@@ -1402,7 +908,7 @@ class Gen:
         return list(blk) + list(rest)
 
     def copy(self, env):
-        return dict((n, Var(v.ty, v.mut, v.patvar)) for n, v in env.items())
+        return dict((n, Var(v.ty, v.mut)) for n, v in env.items())
 
     def lines(self, ls, pad):
         return "\n".join(pad + l for l in ls)
@@ -1416,14 +922,12 @@ class Gen:
                 lhs = s[1]
                 if lhs[0] == "var":
                     out.add(lhs[1])
-                elif lhs[0] == "un" and lhs[1] == "*":
-                    self.die("assignment through a reference inside a loop: not supported")
                 elif lhs[0] == "index":
                     e = lhs[1]
-                    while e[0] in ("un", "field"):
-                        e = e[2] if e[0] == "un" else e[1]
-                    if e[0] == "var":
-                        out.add(e[1])
+                    while e[0] == "un":
+                        e = e[2]
+                    if e[0] == "field" and e[1][0] == "var":
+                        out.add(e[1][1])
                     else:
                         self.die("unsupported assignment target " + str(lhs))
                 else:
@@ -1434,10 +938,6 @@ class Gen:
                 out |= self.assigned(s[2]) | self.assigned(s[3] or [])
             elif k == "block":
                 out |= self.assigned(s[1])
-            elif k == "expr" and s[1][0] == "match":
-                for _, body in s[1][2]:
-                    if isinstance(body, list) and body[0] == "blockx":
-                        out |= self.assigned(body[1])
             elif k == "expr" and s[1][0] in ("ifx", "blockx"):
                 out |= self.assigned(s[1][2] if s[1][0] == "ifx" else s[1][1])
                 if s[1][0] == "ifx":
@@ -1468,15 +968,10 @@ def find_fn(src, anchor, name, path):
         d += {"(": 1, ")": -1}.get(src[j], 0)
         j += 1
     params = src[i:j - 1]
-    rm = re.match(r"\s*->\s*((?:\[[^\]{}]*\]|[^{;\[])+)\{", src[j:])
-    if rm:
-        ret = rm.group(1).strip()
-        k = j + rm.end() - 1
-    elif re.match(r"\s*\{", src[j:]):                    # no `->`: the unit type
-        ret = None
-        k = j + re.match(r"\s*\{", src[j:]).end() - 1
-    else:
+    rm = re.match(r"\s*->\s*([^{;]+)\{", src[j:])
+    if not rm:
         die("%s: no return type / body for fn %s" % (path, name))
+    k = j + rm.end() - 1
     d, e = 0, k
     while True:
         if e >= len(src):
@@ -1485,45 +980,29 @@ def find_fn(src, anchor, name, path):
         e += 1
         if d == 0:
             break
-    return fm.group(1), params, ret, src[k:e]
+    return fm.group(1), params, rm.group(1).strip(), src[k:e]
 
 
-def parse_sig(name, generics, params, ret, selfty="buint", prim=None):
-    sig = {"self": False, "params": [], "generics": [], "mut": set(), "selfty": selfty, "rust": name, "callable": True,
-           "mutref": False, "dbg": False, "prim": None}
+def parse_sig(name, generics, params, ret):
+    sig = {"self": False, "params": [], "generics": []}
     if generics:
         for g in generics.strip()[1:-1].split(","):
-            m = re.match(r"^\s*const\s+(\w+)\s*:\s*(bool|usize)\s*$", g)
+            m = re.match(r"^\s*const\s+(\w+)\s*:\s*bool\s*$", g)
             if not m:
                 die("fn %s: unsupported generic parameter %s" % (name, g.strip()))
-            if m.group(1) in RESERVED:
-                die("fn %s: generic parameter name %s is reserved by the translator" % (name, m.group(1)))
-            sig["generics"].append((m.group(1), m.group(2)))
-    sig["prim"] = prim
-    t = LP(tokenize(params), selfty, prim)
+            sig["generics"].append((m.group(1), "bool"))
+    t = LP(tokenize(params))
     first = True
     while t.peek() is not None:
-        if first and (t.peek() == "self" or (t.peek() in ("&", "mut") and t.peek(1) == "self")
-                      or (t.peek() == "&" and t.peek(1) == "mut" and t.peek(2) == "self")):
-            if t.peek() == "mut":                       # `mut self`: by value, the local copy is assigned
-                t.eat("mut")
-                sig["mut"].add("self")
-            elif t.peek() == "&":
+        if first and t.peek() in ("self", "&") and (t.peek() == "self" or t.peek(1) == "self"):
+            if t.peek() == "&":
                 t.eat("&")
-                if t.peek() == "mut":                   # `&mut self`: the caller's value is updated: the Gallina function
-                    t.eat("mut")                        # returns the new value of *self (only with the unit return type)
-                    sig["mut"].add("self")
-                    sig["mutref"] = True
             t.eat("self")
             sig["self"] = True
         else:
-            mut = False
-            if t.peek() == "mut":                       # `mut x: T`: by value, the local copy is assigned
-                t.eat("mut")
-                mut = True
+            if t.peek() == "mut":
+                die("fn %s: `mut` parameters are not supported" % name)
             pn = t.ident()
-            if mut:
-                sig["mut"].add(pn)
             t.eat(":")
             sig["params"].append((pn, t.type_()))
         first = False
@@ -1531,37 +1010,23 @@ def parse_sig(name, generics, params, ret, selfty="buint", prim=None):
             t.eat(",")
         elif t.peek() is not None:
             die("fn %s: cannot parse the parameter list" % name)
-    if ret is None:
-        if not sig["mutref"]:
-            die("fn %s: no return type (only supported for `&mut self` functions)" % name)
-        sig["ret"] = selfty
-        sig["callable"] = False                        # calls of `&mut self` functions are not in the subset
-        return sig
-    if sig["mutref"]:
-        die("fn %s: `&mut self` with a return value is not supported" % name)
-    r = LP(tokenize(ret), selfty, prim)
+    r = LP(tokenize(ret))
     sig["ret"] = r.type_()
     if r.peek() is not None:
         die("fn %s: cannot parse the return type %s" % (name, ret))
     return sig
 
 
-def assoc_consts(src, selfty="buint"):
+def assoc_consts(src):
     """`const NAME: ty = expr;` items (associated consts of the impl blocks), parsed"""
     out = {}
     for m in re.finditer(r"\bconst\s+([A-Z][A-Z0-9_]*)\s*:\s*(usize|ExpType|u32)\s*=([^;]+);", src):
         name, ty, ex = m.group(1), m.group(2), m.group(3)
-        QUIET[0] += 1
-        try:
-            p = LP(tokenize(ex), selfty)
-            e = p.expr()
-            if p.peek() is not None:
-                die("cannot parse the associated const " + name)
-            out[name] = (LP([ty]).type_(), e)
-        except SystemExit:
-            out[name] = (None, "cannot parse the associated const %s (%s)" % (name, LAST_MSG[0]))   # an error only where it is used
-        finally:
-            QUIET[0] -= 1
+        p = LP(tokenize(ex))
+        e = p.expr()
+        if p.peek() is not None:
+            die("cannot parse the associated const " + name)
+        out[name] = (LP([ty]).type_(), e)
     return out
 
 
@@ -1578,12 +1043,10 @@ def digit_sigs(dsrc):
         s = s.strip()
         if s.startswith("("):
             return tuple(ty(x) for x in s[1:-1].split(","))
-        return {"Digit": "Digit", "bool": "bool", "SignedDigit": "SDigit"}.get(s, "unsupported:" + s)
+        return {"Digit": "Digit", "bool": "bool"}.get(s, "unsupported:" + s)
     out = {}
     for m in re.finditer(r"pub const fn (\w+)\s*\(([^)]*)\)\s*->\s*([^{]+)\{", dsrc):
         ps = [ty(p.split(":")[1]) for p in m.group(2).split(",") if p.strip()]
-        if any(p.split(":")[0].split()[0] == "mut" for p in m.group(2).split(",") if p.strip()):
-            continue
         r = ty(m.group(3))
         if all(isinstance(x, str) and not x.startswith("unsupported") for x in ps) and "unsupported" not in str(r):
             out[m.group(1)] = (ps, r)
@@ -1597,65 +1060,35 @@ def main():
     fns = {}
     sigs = {}
     consts = {}
-    def load(path, macro=None):
-        """the body of the first macro_rules! ($BUint, $BInt, $Digit) of the file (macro = (name, parameter-list regex, ..):
-        of that macro), comments stripped"""
-        p = os.path.join(REPO, path)
-        if not os.path.exists(p):
-            die("source file %s not found" % p)
-        txt = strip_comments(open(p).read())
-        if macro is None:
-            mm = re.search(r"macro_rules!\s*\w+\s*\{\s*\(\s*\$BUint\s*:\s*ident\s*,\s*\$BInt\s*:\s*ident\s*,\s*\$Digit\s*:\s*ident\s*\)", txt)
+    for path, anchor, name, coq in WANTED:
+        if path not in files:
+            p = os.path.join(REPO, path)
+            if not os.path.exists(p):
+                die("source file %s not found" % p)
+            files[path] = strip_comments(open(p).read())
+            mm = re.search(r"macro_rules!\s*\w+\s*\{\s*\(\s*\$BUint\s*:\s*ident\s*,\s*\$BInt\s*:\s*ident\s*,\s*\$Digit\s*:\s*ident\s*\)", files[path])
             if not mm:
                 die("%s: macro_rules! with ($BUint, $BInt, $Digit) not found" % path)
-        else:
-            mm = re.search(r"macro_rules!\s*%s\s*\{\s*%s\s*=>" % (re.escape(macro[0]), macro[1]), txt)
-            if not mm:
-                die("%s: macro_rules! %s with the expected parameter list not found" % (path, macro[0]))
-            # every instantiation passes primitive types of the modelled kind only (the last argument group)
-            uses = re.findall(r"(?<![\w!])%s!\s*\(([^()]*)\)\s*;" % re.escape(macro[0]), txt)
-            if not uses:
-                die("%s: no instantiation of macro %s found" % (path, macro[0]))
-            for u in uses:
-                tys = [x.strip() for x in u.split(";")[-1].split(",") if x.strip()]
-                if not tys or not all(re.fullmatch(macro[3], x) for x in tys):
-                    die("%s: macro %s is instantiated for types outside the modelled kind: %s" % (path, macro[0], ", ".join(tys)))
-        # keep only the body of that (first) macro: the functions are looked up inside it
-        b0 = txt.index("{", mm.start())
-        d, e = 0, b0
-        while True:
-            if e >= len(txt):
-                die("%s: unbalanced braces in the macro body" % path)
-            d += {"{": 1, "}": -1}.get(txt[e], 0)
-            e += 1
-            if d == 0:
-                break
-        return txt[b0:e]
-
-    for path, anchor, name, coq, macro in [(e + (None,))[:5] for e in WANTED]:
-        fkey = path if macro is None else (path, macro[0])
+            # keep only the body of that (first) macro: the functions are looked up inside it
+            b0 = files[path].index("{", mm.start())
+            d, e = 0, b0
+            while True:
+                if e >= len(files[path]):
+                    die("%s: unbalanced braces in the macro body" % path)
+                d += {"{": 1, "}": -1}.get(files[path][e], 0)
+                e += 1
+                if d == 0:
+                    break
+            files[path] = files[path][b0:e]
+            consts[path] = assoc_consts(files[path])
         try:
-            if fkey not in files:
-                files[fkey] = load(path, macro)
-                if path not in consts:
-                    consts[path] = assoc_consts(files[fkey], selfty_of(path)) if macro is None else {}
-                    for other in CONST_FILES.get(path, []):
-                        for cn, cv in assoc_consts(load(other), selfty_of(other)).items():
-                            consts[path].setdefault(cn, cv)
-        except SystemExit:
-            if macro is None:
-                raise                                   # a whole file of the core is unreadable: global failure
-            failed[coq] = LAST_MSG[0]
-            continue
-        try:
-            generics, params, ret, body = find_fn(files[fkey], anchor, name, path)
-            if coq in fns:
-                die("two wanted functions are called " + coq)
-            sg = parse_sig(name, generics, params, ret, selfty_of(path), macro[2] if macro else None)
+            generics, params, ret, body = find_fn(files[path], anchor, name, path)
+            if name in fns and name != "add":
+                die("two wanted functions are called " + name)
+            sg = parse_sig(name, generics, params, ret)
             sg["coq"] = coq
-            sg["callable"] = anchor is None            # trait impls (`Add<$Digit>::add`) are not resolved by name
-            fns[coq] = (path, coq, body)
-            sigs[coq] = sg
+            fns[name] = (path, coq, body)
+            sigs[name] = sg
         except (SystemExit, Exception) as ex:      # this function only: stub below
             failed[coq] = LAST_MSG[0] if isinstance(ex, SystemExit) else repr(ex)
     dsrc = strip_comments(open(os.path.join(REPO, "src/digit.rs")).read())
@@ -1664,49 +1097,29 @@ def main():
     csrc = strip_comments(open(os.path.join(REPO, "src/buint/consts.rs")).read())
     if not re.search(r"pub\s+const\s+BITS\s*:\s*ExpType\s*=\s*digit\s*::\s*\$Digit\s*::\s*BITS\s*\*\s*N\s+as\s+ExpType\s*;", csrc):
         die("src/buint/consts.rs: `BITS = digit::$Digit::BITS * N as ExpType` has changed")
-    # Self::ONE .. Self::TEN are translated as Self::from_digit(1) .. (10): check that this is their definition
-    if not re.search(r"macro_rules!\s*pos_const\s*\{\s*\(\s*\$\(\s*\$name\s*:\s*ident\s+\$num\s*:\s*literal\s*\)\s*,\s*\*\s*\)\s*=>\s*\{\s*\$\(\s*"
-                     r"(#\[[^\]]*\]\s*)*pub\s+const\s+\$name\s*:\s*Self\s*=\s*Self\s*::\s*from_digit\s*\(\s*\$num\s*\)\s*;\s*\)\s*\*\s*\}", csrc):
-        die("src/buint/consts.rs: macro pos_const (`pub const $name: Self = Self::from_digit($num);`) has changed")
-    if not re.search(r"pos_const!\s*\(\s*" + r"\s*,\s*".join("%s\s+%d" % (k, v) for k, v in POS_CONSTS.items()) + r"\s*\)\s*;", csrc):
-        die("src/buint/consts.rs: `pos_const!(ONE 1, .., TEN 10);` has changed")
-    # $BInt is a struct around `bits: $BUint<N>`; $BInt::ZERO is all-zero digits
-    isrc = strip_comments(open(os.path.join(REPO, "src/bint/consts.rs")).read())
-    if not re.search(r"pub\s+const\s+ZERO\s*:\s*Self\s*=\s*Self\s*::\s*from_bits\s*\(\s*\$BUint\s*::\s*ZERO\s*\)\s*;", isrc):
-        die("src/bint/consts.rs: `ZERO = Self::from_bits($BUint::ZERO)` has changed")
-    msrc = strip_comments(open(os.path.join(REPO, "src/bint/mod.rs")).read())
-    if not re.search(r"pub\s+struct\s+\$BInt\s*<\s*const\s+N\s*:\s*usize\s*>\s*\{\s*(pub\s*(\([^)]*\))?\s*)?bits\s*:\s*\$BUint\s*<\s*N\s*>\s*,?\s*\}", msrc):
-        die("src/bint/mod.rs: `struct $BInt<const N: usize> { bits: $BUint<N> }` has changed")
-    if not re.search(r"fn\s+from_bits\s*\(\s*bits\s*:\s*\$BUint\s*<\s*N\s*>\s*\)\s*->\s*Self\s*\{\s*Self\s*\{\s*bits\s*\}\s*\}", msrc):
-        die("src/bint/mod.rs: `from_bits(bits) -> Self { Self { bits } }` has changed")
-    usrc = strip_comments(open(os.path.join(REPO, "src/buint/mod.rs")).read())
-    if not re.search(r"pub\s+struct\s+\$BUint\s*<\s*const\s+N\s*:\s*usize\s*>\s*\{\s*(#\[[^\]]*\]\s*)*(pub\s*(\([^)]*\))?\s*)?digits\s*:\s*\[\s*\$Digit\s*;\s*N\s*\]\s*,?\s*\}", usrc):
-        die("src/buint/mod.rs: `struct $BUint<const N: usize> { digits: [$Digit; N] }` has changed")
 
-    out = ["(* GENERATED on every run by tools/rs2v_loops.py from /repo/src/buint/{overflowing,const_trait_fillers,mul,mod,ops,checked,wrapping,cast,convert}.rs",
-           "   and /repo/src/bint/overflowing.rs.  Do not edit.  Proofs/LoopsTie*.v prove each function equal to the hand-written model.",
-           "   Vocabulary: Model/Imp.v (control flow), Prim.v, Model/DigitPrims.v, Model/LoopPrims.v, Generated/DigitGen.v;",
-           "   calls of $BUint methods that are not re-translated are calls of the hand-written model (qualified: Mul.U_overflowing_mul ..). *)",
+    out = ["(* GENERATED on every run by tools/rs2v_loops.py from /repo/src/buint/{overflowing,const_trait_fillers,mul,mod,ops,checked}.rs.",
+           "   Do not edit.  Proofs/LoopsTie.v proves each function equal to the hand-written model.",
+           "   Vocabulary: Model/Imp.v (control flow), Prim.v, Model/DigitPrims.v, Model/LoopPrims.v, Generated/DigitGen.v. *)",
            "From Bnum Require Import Base Prim.",
            "From Bnum.Model Require Import DigitPrims LoopPrims Core Imp.",
-           "From Bnum.Model Require Mul Div AddSub.",
            "From Bnum.Generated Require Import DigitGen.", "", "Module Loops.", ""]
     # a function that calls an untranslatable function is untranslatable too: iterate to a fixpoint
     texts = {}
     while True:
         again = False
-        for path, anchor, name, coq in [e[:4] for e in WANTED]:
+        for path, anchor, name, coq in WANTED:
             if coq in failed:
                 continue
             try:
                 texts[coq] = translate_one(path, name, coq, fns, sigs, dsigs, consts)
             except (SystemExit, Exception) as ex:
                 failed[coq] = LAST_MSG[0] if isinstance(ex, SystemExit) else repr(ex)
-                sigs.pop(coq, None)
+                sigs.pop(name, None)
                 again = True
         if not again:
             break
-    for path, anchor, name, coq in [e[:4] for e in WANTED]:
+    for path, anchor, name, coq in WANTED:
         if coq not in failed:
             out.append(texts[coq])
         else:
@@ -1727,36 +1140,29 @@ def main():
 def translate_one(path, name, coq, fns, sigs, dsigs, consts):
     if True:
         out = []
-        _, _, body = fns[coq]
-        sig = sigs[coq]
-        ast = LP(tokenize(body), sig["selfty"], sig["prim"]).block()
+        _, _, body = fns[name]
+        ast = LP(tokenize(body)).block()
+        sig = sigs[name]
         tvs = {}
         txt = None
         for final in (False, True):
-            g = Gen(coq, sigs, dsigs, consts[path], tvs, final)
+            g = Gen(name, sigs, dsigs, consts[path], tvs, final)
             env = {}
             ctx = {"loop": None, "protected": set()}
             for gn, gt in sig["generics"]:
                 env[gn] = Var(gt, False)
             if sig["self"]:
-                env["self"] = Var(sig["selfty"], "self" in sig["mut"])
+                env["self"] = Var("buint", False)
             for pn, pt in sig["params"]:
-                g.declare(env, pn, pt, pn in sig["mut"], ctx)
-            txt = g.stmts(ast, env, ctx, 2 if g.recursive else 1)
-            sig["dbg"] = g.uses_dbg                    # known after the first pass (a recursive call needs it)
+                g.declare(env, pn, pt, False, ctx)
+            txt = g.stmts(ast, env, ctx, 1)
         argl = "".join(" (%s : %s)" % (n, coq_ty(t)) for n, t in sig["generics"])
         argl += " (self : list Z)" if sig["self"] else ""
         argl += "".join(" (%s : %s)" % (n, coq_ty(t)) for n, t in sig["params"])
         out.append("(* %s: fn %s *)" % (path, name))
-        kw, pre_, post_ = "Definition", "", ""
-        if g.recursive:                                # a recursive fn: structural recursion on the budget
-            kw, pre_, post_ = "Fixpoint", "  match fuel with\n  | O => NoFuel\n  | S fuel' =>\n", "\n  end"
-            argl += " {struct fuel}"
-        if sig["prim"] is not None:
-            argl = " (pb : Z)" + argl                  # the width of the primitive type the macro is instantiated at
-        out.append("%s %s %s(w N : Z) (fuel : nat)%s : res (%s) :=\n%s%s%s.\n" % (kw, coq, "(dbg : bool) " if sig["dbg"] else "", argl, coq_ty(sig["ret"])[1:-1] if isinstance(rs(sig["ret"]), tuple) else coq_ty(sig["ret"]), pre_, txt, post_))
+        out.append("Definition %s (w N : Z) (fuel : nat)%s : res (%s) :=\n%s.\n" % (coq, argl, coq_ty(sig["ret"]).strip("()") if isinstance(rs(sig["ret"]), tuple) else coq_ty(sig["ret"]), txt))
         return "\n".join(out)
 
 
 if __name__ == "__main__":
-    sys.exit(main())
+    sys.exit("rs2v_loops_v1.py is a frozen library copy used by rs2v_div.py; run rs2v_loops.py")
